@@ -328,3 +328,74 @@ def r05_7(ctx, run, rule='R05.7'):
     for k, v in exp_text.items():
         got = text.get(k)
         (run.proved if got == v else run.violation)(rule, b.path, f'text[{chr(k)!r}]', f'-> "{v}"' if got == v else f'expected "{v}", found {got!r}', f'{b.file}:{b.line}')
+
+
+# ------------------------------------------------------------------ R05.9 array elements are matched against a name only if they are strings
+
+def r05_9(ctx, run, rule='R05.9'):
+    """Wherever the payload of an array element (an item of the (JEntry, &[u8]) element iterator) is compared for equality
+    with text that does not come from the same element, the path has established that the element's entry kind is
+    STRING_TAG: a number or null whose payload bytes happen to equal the name is not the name."""
+    from pat import access_path
+    f = ctx.facts
+    STR = cv(f, 'STRING_TAG')
+    n = 0
+
+    def elem_root(t, b):
+        """the (JEntry, &[u8]) tuple a term is the payload component of, or None"""
+        r, st = access_path(t)
+        if not st or st[-1] != ('f', 1):
+            return None
+        if r[0] == 'init' and '(jentry::JEntry, &[u8])' in str(b.local_ty(r[1]).get('s', '')):
+            return ('param', r[1])
+        if r[0] == 'call' and canon(r[1]).endswith('Iterator::next') and 'ArrayIterator' in r[1]:
+            return ('next', r[3] if len(r) > 3 else None)
+        return None
+
+    for p, b in sorted(f.bodies.items()):
+        if b.kind == 'Promoted' or not p.startswith('functions::'):
+            continue
+        if not any('(jentry::JEntry, &[u8])' in str(l['ty'].get('s', '')) for l in b.locals):
+            continue
+        loops = natural_loops(b)
+        ex = Explorer(b, max_paths=3000)
+        paths = []
+        for s0 in [0] + sorted(loops):
+            paths.extend(ex.explore(start=s0, stop=set(loops)))
+        sites = {}
+        for q in paths:
+            for e in q.calls():
+                if not (canon(e[1]).endswith(('PartialEq::eq', 'PartialEq::ne', 'SlicePartialEq::equal', 'str::eq')) and len(e[2]) == 2):
+                    continue
+                roots = []
+                for a in e[2]:
+                    found = None
+                    for s_ in subterms(a):
+                        er = elem_root(s_, b)
+                        if er is not None:
+                            found = er
+                            break
+                    roots.append(found)
+                if (roots[0] is None) == (roots[1] is None):
+                    continue      # neither side, or both sides, come from an element
+                t = e[5]
+                key = f"{t.get('file')}:{t.get('line')}"
+                ok = False
+                for c in q.conds[:e[6]]:
+                    tt = c[0]
+                    sh = show(tt)
+                    if 'type_code' in sh or (tt[0] == 'field' and tt[3] == 0):
+                        if (c[1] == 'eq' and c[2] == STR) or (tt[0] == 'bin' and tt[1] in ('Ne', 'Eq') and False):
+                            ok = True
+                    if tt[0] == 'bin' and tt[1] in ('Eq', 'Ne') and ('type_code' in sh) and any(const_of(x) == STR for x in (tt[2], tt[3])):
+                        if (tt[1] == 'Eq') == bool(c[2]):
+                            ok = True
+                d = sites.setdefault(key, True)
+                sites[key] = d and ok
+        for key, ok in sorted(sites.items()):
+            n += 1
+            (run.proved if ok else run.violation)(rule, p, 'element-vs-name', 'the element is known to be a string on every path to the comparison' if ok else
+                                                   'the payload bytes of an array element are compared with a name without first checking that the element is a string '
+                                                   '(entry kind STRING_TAG): a null, boolean or number element whose payload equals the name counts as a match', key)
+    if n == 0:
+        run.undecided(rule, 'functions::*', 'element-vs-name', 'no comparison of an array element payload with a name was found: not decided')
